@@ -7,6 +7,7 @@ import (
 	"context"
 	"fmt"
 	"strings"
+	"sync"
 	"time"
 
 	"github.com/deckhouse/deckhouse/pkg/log"
@@ -44,6 +45,68 @@ type Case struct {
 	Actions []Action `json:"actions"`
 	// AfterStop: tasks added to every queue after the stop request
 	AfterStop int `json:"after_stop"`
+	// StopVia: how the stop request is made: "" TaskQueueSet.Stop; "context" the context the operator was created
+	// with is cancelled; "deadline" that context ends because its deadline passed
+	StopVia string `json:"stop_via,omitempty"`
+}
+
+// endableCtx is a context whose end the harness triggers: it then reports the error of a passed deadline. It
+// implements the AfterFunc method the context package looks for, so that contexts derived from it are ended
+// synchronously inside expire() (as a cancel function does for its descendants), not by a watcher goroutine.
+type endableCtx struct {
+	context.Context
+	done  chan struct{}
+	mu    sync.Mutex
+	err   error
+	next  int
+	funcs map[int]func()
+}
+
+func newEndableCtx() *endableCtx {
+	return &endableCtx{Context: context.Background(), done: make(chan struct{}), funcs: map[int]func(){}}
+}
+
+func (d *endableCtx) Done() <-chan struct{} { return d.done }
+func (d *endableCtx) Err() error {
+	d.mu.Lock()
+	defer d.mu.Unlock()
+	return d.err
+}
+func (d *endableCtx) AfterFunc(f func()) func() bool {
+	d.mu.Lock()
+	defer d.mu.Unlock()
+	if d.err != nil {
+		go f()
+		return func() bool { return false }
+	}
+	id := d.next
+	d.next++
+	d.funcs[id] = f
+	return func() bool {
+		d.mu.Lock()
+		defer d.mu.Unlock()
+		_, ok := d.funcs[id]
+		delete(d.funcs, id)
+		return ok
+	}
+}
+func (d *endableCtx) expire() {
+	d.mu.Lock()
+	if d.err != nil {
+		d.mu.Unlock()
+		return
+	}
+	d.err = context.DeadlineExceeded
+	close(d.done)
+	var fs []func()
+	for _, f := range d.funcs {
+		fs = append(fs, f)
+	}
+	d.funcs = map[int]func(){}
+	d.mu.Unlock()
+	for _, f := range fs {
+		f()
+	}
 }
 
 var QueueNames = []string{"main", "q1", "q2", "q3"}
@@ -59,6 +122,7 @@ func Gen(t *rapid.T, withStop bool) Case {
 	stopAt := -1
 	if withStop {
 		stopAt = rapid.IntRange(0, n).Draw(t, "stopAt")
+		c.StopVia = rapid.SampledFrom([]string{"", "", "context", "deadline"}).Draw(t, "stopVia")
 	}
 	for i := 0; i <= n; i++ {
 		if i == stopAt {
@@ -127,11 +191,26 @@ func Run(c Case) (ev.Info, error) {
 	if len(c.Queues) == 0 {
 		return info, nil
 	}
-	ctx, cancel := context.WithCancel(context.Background())
+	dctx := newEndableCtx()
+	defer dctx.expire()
+	ctx, cancel := context.WithCancel(dctx)
 	defer cancel()
 	op := shop.NewShellOperator(ctx, shop.WithLogger(log.NewNop()))
 	op.SetupEventManagers()
 	tqs := op.TaskQueues
+	stopNow := func() {
+		switch c.StopVia {
+		case "context":
+			cancel()
+		case "deadline":
+			dctx.expire()
+		default:
+			tqs.Stop()
+		}
+	}
+	if c.StopVia != "" {
+		info.Labels = append(info.Labels, "stop-via:"+c.StopVia)
+	}
 	qs := map[string]*qstate{}
 	for _, name := range c.Queues {
 		st := &qstate{}
@@ -316,7 +395,7 @@ func Run(c Case) (ev.Info, error) {
 				}
 			}
 			if a.StopInAfterHandle && step+1 < len(c.Actions) && c.Actions[step+1].K == "stop" {
-				res.AfterHandle = func() { tqs.Stop() }
+				res.AfterHandle = func() { stopNow() }
 				stoppedAfterHandle = a.Queue
 				stopped = true
 			}
@@ -379,7 +458,7 @@ func Run(c Case) (ev.Info, error) {
 	}
 	info.NonTrivial = nonEmpty
 	if stoppedAfterHandle == "" {
-		tqs.Stop()
+		stopNow()
 	}
 	// tasks keep arriving after the stop request
 	for _, n := range c.Queues {
